@@ -112,4 +112,14 @@ CHECKS["C17"] = dict(
            dict(name="fanout", run="^TestFanOut$", quick=200, thorough=6000, shards_thorough=4)],
 )
 
+CHECKS["C14"] = dict(
+    pkg="c14", race=True, level="exploration", timeout_quick=600, timeout_thorough=2400,
+    technique="property-based concurrency testing (rapid): goroutines behind a barrier present generated multisets to the Deduplicator, key classes from an independent reference hash; timed retention sequences; hasher laws as a differential",
+    level_text="Generated multisets of messages with payload sizes around the read-limit boundary are presented by up to 32 goroutines at once (several rounds per case, GOMAXPROCS varied) to the middleware and to the publisher decorator; per key class (computed with an independent reference hash) exactly one presentation may pass and all others must be dropped as acked successes. Timed sequences check the lower bound of the retention window and re-acceptance after expiry; the hashers are compared with hash(payload[:min(len,limit)]).",
+    level_note="Trusted: the reference hash in c14_test.go, wall-clock used conservatively (retention only asserted for re-presentations that ended inside the window). Interleavings are sampled; the race detector is on.",
+    steps=[dict(name="concurrent", run="^TestConcurrentPresentations$", quick=1000, thorough=40000, shards_thorough=12),
+           dict(name="laws", run="^TestHasherLaws$", quick=3000, thorough=100000, shards_thorough=2),
+           dict(name="retention", run="^TestRetentionWindow$", quick=60, thorough=400, shards_thorough=2)],
+)
+
 NOT_APPLICABLE = {}
